@@ -85,7 +85,11 @@ class DenseTimeOnlineUpdateVisitor(AbstractOnlineUpdateVisitor):
         return sample_return
 
     def visitConstant(self, node, online_operator_dict, var_object_dict):
-        sample_return = [[0, node.val], [float("inf"), node.val]]
+        # the whole constant signal [[0, c], [inf, c]] is handed over by the first update only;
+        # a constant that occurs several times is stepped once per update, like every other operator
+        if node.name in self.visited:
+            return self.visited[node.name]
+        sample_return = online_operator_dict[node.name].update()
         return sample_return
 
 
